@@ -144,6 +144,26 @@ def reachable_functions(ctx, roots, stop=None):
                     init = ctx.prog.find_method(r.target, '__init__')
                     if init is not None:
                         work.append(init)
+            # functions handed around as values (a dispatch table, a callback argument) are called by whoever receives
+            # them: a reference in argument / table position counts as a call edge
+            for n in ast.walk(g.node):
+                cands = []
+                if isinstance(n, ast.Call):
+                    cands = list(n.args) + [k.value for k in n.keywords]
+                elif isinstance(n, (ast.Tuple, ast.List, ast.Set)):
+                    cands = list(n.elts)
+                elif isinstance(n, ast.Dict):
+                    cands = list(n.values)
+                for c in cands:
+                    if isinstance(c, (ast.Name, ast.Attribute)) and isinstance(getattr(c, 'ctx', None), ast.Load):
+                        if isinstance(c, ast.Name) and (c.id in g.params or c.id in ('self', 'None', 'True', 'False')):
+                            continue
+                        try:
+                            r = ctx.prog.resolve_expr(g, g.module, c)
+                        except Exception:
+                            r = None
+                        if r is not None and r.kind == 'func':
+                            work.append(r.target)
     return seen
 
 
